@@ -45,7 +45,7 @@ def exSibInit : List GSig := [⟨1, 0, 0⟩, ⟨2, 0, 5⟩]
 
 /-- equal signals: the same signal value is pending twice and is enqueued once more by a handler -/
 def exDup : Prog (List Nat) := fun st s =>
-  (st ++ [s.id], if s.id = 2 ∧ st.length < 3 then [⟨1, 0, 0⟩, ⟨2, 0, -1⟩] else [])
+  (st ++ [s.id], if s.id = 2 ∧ st.length < 2 then [⟨1, 0, 0⟩, ⟨2, 0, -1⟩] else [])
 
 def exDupInit : List GSig := [⟨1, 0, 0⟩, ⟨2, 0, -1⟩, ⟨1, 0, 0⟩, ⟨3, 0, 0⟩]
 
